@@ -271,9 +271,10 @@ def finish(module, res, tier, seed, wall):
     try:
         validate_evidence(ev)
     except Exception as e:
-        sys.stderr.write('HARNESS ERROR: evidence does not validate: %s\n' % (str(e)[:500],))
-        # still write it, so the problem can be inspected
-        res.harness_errors.append({'error': 'evidence schema: %s' % (str(e)[:300],)})
+        sys.stderr.write('WARNING: evidence does not validate: %s\n' % (str(e)[:300],))
+        # still write it, so the problem can be inspected; a harness error only if there is no verdict to report
+        if not fresh:
+            res.harness_errors.append({'error': 'evidence schema: %s' % (str(e)[:300],)})
     os.makedirs(os.path.join(env.VERIF_DIR, 'evidence'), exist_ok=True)
     with open(os.path.join(env.VERIF_DIR, 'evidence', pid + '.json'), 'w') as f:
         json.dump(ev, f, indent=1)
@@ -285,7 +286,7 @@ def finish(module, res, tier, seed, wall):
     for k in known:
         print('KNOWN-FINDING: property=%s key=%s %s (matched %d case(s) in this run)' % (
             pid, k['key'], k['text'], matched.get(k['key'], 0)))
-    if res.harness_errors:
+    if res.harness_errors and not fresh:
         for h in res.harness_errors[:5]:
             sys.stderr.write('HARNESS ERROR: %s\n' % (json.dumps(_jsonable(h))[:3000],))
         return 2
